@@ -1,6 +1,7 @@
 (* C04 — Model/Sched.v on static grouped leaf programs computes the structural
    specification of Proofs/SchedFlatDefs.v: enter, one recur pass, exit, for a
    scheduler whose deque holds live leaves and (one level of) tock-z0 groups. *)
+From Coq Require Import Permutation.
 From Hio Require Import Base.Prelude Base.AMap Base.Time Model.Sched
   Proofs.SchedEqs Proofs.SchedFrame Proofs.SchedLife Proofs.SchedFlatDefs.
 
@@ -986,6 +987,176 @@ Proof.
            unfold s2. rewrite sched_set_deeds_other by exact Nn0. exact Dqs.
       * eapply frame_trans; [eapply frame_weaken; [| |exact F2]; incl_gs
                             |eapply frame_weaken; [| |exact F']; incl_gs].
+Qed.
+
+(* ---------- exit ---------- *)
+
+Lemma close_list_deed f s i (re : T) r :
+  close_list tk (S f) s (DDeed i re :: r) = close_list tk f (gen_close tk f s i) r.
+Proof. now rewrite close_list_S. Qed.
+
+Lemma lvs_close_list : forall (vs : list (lv T)) f s o,
+  oof (close_list tk f s (map lv_deed vs)) = false ->
+  Forall (lv_ok s) vs -> Forall (fun v => leaf_in (defs s) (v_leaf v)) vs -> NoDup (map lv_id vs) ->
+  Forall (fun v => In (lv_id v) vis) vs -> out_ok s o ->
+  out_ok (close_list tk f s (map lv_deed vs)) (lvs_close (tyme s) vs o) /\
+  frame (map lv_id vs) [] s (close_list tk f s (map lv_deed vs)).
+Proof.
+  induction vs as [|v vs IH]; intros f s o O G D ND V OK.
+  - cbn [map] in *. destruct f as [|f]; [rewrite close_list_O in O; discriminate|].
+    rewrite close_list_S. split; [exact OK|apply frame_refl].
+  - cbn [map] in *. destruct f as [|f]; [rewrite close_list_O in O; discriminate|].
+    apply Forall_cons_iff in G as [Gv GU]. apply Forall_cons_iff in D as [[Dv Pv] DU].
+    apply NoDup_cons_iff in ND as [NDv NDU]. apply Forall_cons_iff in V as [Vv VU].
+    change (lv_deed v :: map lv_deed vs) with (DDeed (lv_id v) (v_re v) :: map lv_deed vs) in *.
+    rewrite close_list_deed in *.
+    pose proof (oof_close_list _ _ _ O) as O1.
+    rewrite (leaf_close _ _ _ _ _ _ O1 Gv Dv) in *.
+    set (s1 := set_gen (emit (emit (set_gen s (lv_id v) (GRun (v_pc v))) Cease (lv_id v)) Exit (lv_id v)) (lv_id v) GDone) in *.
+    assert (F1 : frame [lv_id v] [] s s1).
+    { unfold s1. apply frame_gen; [now left|]. do 2 apply frame_emit. apply frame_gen; [now left|]. apply frame_refl. }
+    assert (OK1 : out_ok s1 (o_emit (o_emit o Cease (lv_id v) (tyme s)) Exit (lv_id v) (tyme s))).
+    { unfold s1. apply ok_gen.
+      apply (ok_emit_vis (emit (set_gen s (lv_id v) (GRun (v_pc v))) Cease (lv_id v)) _ Exit (lv_id v) Vv).
+      apply (ok_emit_vis (set_gen s (lv_id v) (GRun (v_pc v))) _ Cease (lv_id v) Vv). now apply ok_gen. }
+    assert (GU1 : Forall (lv_ok s1) vs).
+    { eapply lvs_ok_frame; [exact F1| |exact GU]. intros u Hu [Heq|[]]. apply NDv. rewrite Heq. now apply in_map. }
+    destruct (IH f s1 _ O GU1 DU NDU VU OK1) as [OK' F'].
+    split; [exact OK'|].
+    eapply frame_trans.
+    + eapply frame_weaken; [| |exact F1]; [intros x [->|[]]; now left|apply incl_refl].
+    + eapply frame_weaken; [| |exact F']; [apply incl_tl, incl_refl|apply incl_refl].
+Qed.
+
+Lemma split_mark_lvs (vs : list (lv T)) : forall acc, split_mark (map lv_deed vs) acc = None.
+Proof. induction vs as [|v vs IH]; intro acc; cbn [map split_mark lv_deed]; [reflexivity|apply IH]. Qed.
+Lemma split_mark_its (its : list (aitem T)) : forall acc, split_mark (map it_deed its) acc = None.
+Proof.
+  induction its as [|it its IH]; intro acc; cbn [map split_mark]; [reflexivity|].
+  destruct it; cbn [it_deed lv_deed]; apply IH.
+Qed.
+
+Lemma lv_id_rev (vs : list (lv T)) : map lv_id (rev vs) = rev (map lv_id vs).
+Proof. apply map_rev. Qed.
+
+Lemma group_close f s n npc kids0 (kids : list (lv T)) o :
+  oof (gen_close tk f s n) = false ->
+  get_gen s n = GSusp npc -> get (defs s) n = Some (FNest z0 false kids0) ->
+  deeds (get_sched s n) = map lv_deed kids -> Forall (lv_ok s) kids ->
+  Forall (fun v => leaf_in (defs s) (v_leaf v)) kids -> NoDup (map lv_id kids) ->
+  Forall (fun v => In (lv_id v) vis) kids -> ~ In n vis ->
+  out_ok s o ->
+  out_ok (gen_close tk f s n) (lvs_close (tyme s) (rev kids) o) /\
+  frame (n :: map lv_id kids) [n] s (gen_close tk f s n).
+Proof.
+  intros O G D Dq K DK ND V NV OK.
+  assert (NK : forall v, In v kids -> ~ In (lv_id v) [n]).
+  { intros v Hv [Heq|[]]. rewrite Forall_forall in V. apply NV. rewrite Heq. now apply V. }
+  destruct f as [|f]; [rewrite gen_close_O in O; discriminate|].
+  rewrite gen_close_S, G, D in *. cbv zeta in *.
+  set (s1 := emit (set_gen s n (GRun npc)) Cease n) in *.
+  rewrite oof_set_gen, oof_emit in O.
+  destruct f as [|f]; [rewrite close_own_O in O; discriminate|].
+  rewrite close_own_S in *. cbv zeta in *.
+  change (get_sched s1 n) with (get_sched s n) in *. rewrite Dq in *.
+  unfold unrotate in *. rewrite split_mark_lvs in *. rewrite <- map_rev in *.
+  set (s2 := set_deeds s1 n []) in *.
+  assert (F2 : frame [n] [n] s s2).
+  { unfold s2, s1. apply frame_deeds; [now left|]. apply frame_emit. apply frame_gen; [now left|]. apply frame_refl. }
+  assert (OK2 : out_ok s2 o).
+  { unfold s2, s1. apply ok_deeds. apply ok_emit_invis; [exact NV|]. now apply ok_gen. }
+  assert (K2 : Forall (lv_ok s2) (rev kids)).
+  { apply Forall_rev. eapply lvs_ok_frame; [exact F2|exact NK|exact K]. }
+  assert (ND2 : NoDup (map lv_id (rev kids))) by (rewrite lv_id_rev; now apply NoDup_rev).
+  destruct (lvs_close_list (rev kids) f s2 o O K2 (Forall_rev DK) ND2 (Forall_rev V) OK2) as [OK' F'].
+  change (tyme s2) with (tyme s) in OK'.
+  split.
+  - apply ok_gen. apply ok_emit_invis; [exact NV|exact OK'].
+  - apply frame_gen; [now left|]. apply frame_emit.
+    eapply frame_trans.
+    + eapply frame_weaken; [| |exact F2]; [intros x [->|[]]; now left|apply incl_refl].
+    + eapply frame_weaken; [| |exact F']; [|intros x []].
+      intros x Hx. right. rewrite lv_id_rev in Hx. now apply in_rev.
+Qed.
+
+Lemma its_close_list : forall (its : list (aitem T)) f s o,
+  oof (close_list tk f s (map it_deed its)) = false ->
+  Forall (it_ok s) its -> Forall (it_wf (defs s)) its -> NoDup (0%N :: its_ids its) -> out_ok s o ->
+  out_ok (close_list tk f s (map it_deed its)) (its_close (tyme s) its o) /\
+  frame (its_ids its) (its_ids its) s (close_list tk f s (map it_deed its)).
+Proof.
+  induction its as [|it its IH]; intros f s o O G W ND OK.
+  - cbn [map] in *. destruct f as [|f]; [rewrite close_list_O in O; discriminate|].
+    rewrite close_list_S. split; [exact OK|apply frame_refl].
+  - cbn [map] in *. destruct f as [|f]; [rewrite close_list_O in O; discriminate|].
+    apply Forall_cons_iff in G as [Gi GU]. apply Forall_cons_iff in W as [Wi WU].
+    apply NoDup_cons_iff in ND as [N0 ND]. unfold its_ids in ND, N0. cbn [flat_map] in ND, N0. fold (its_ids its) in ND, N0.
+    pose proof (NoDup_app_disj _ _ ND) as Disj.
+    assert (NDU : NoDup (0%N :: its_ids its)).
+    { constructor; [intro; apply N0; apply in_or_app; now right|]. eapply NoDup_app_r; exact ND. }
+    destruct it as [v|n npc re kids]; cbn [it_deed it_ok it_wf it_ids its_close] in *.
+    + destruct Wi as [[Dv Pv] Vv].
+      change (lv_deed v :: map it_deed its) with (DDeed (lv_id v) (v_re v) :: map it_deed its) in *.
+      rewrite close_list_deed in *.
+      pose proof (oof_close_list _ _ _ O) as O1.
+      rewrite (leaf_close _ _ _ _ _ _ O1 Gi Dv) in *.
+      set (s1 := set_gen (emit (emit (set_gen s (lv_id v) (GRun (v_pc v))) Cease (lv_id v)) Exit (lv_id v)) (lv_id v) GDone) in *.
+      assert (F1 : frame [lv_id v] [] s s1).
+      { unfold s1. apply frame_gen; [now left|]. do 2 apply frame_emit. apply frame_gen; [now left|]. apply frame_refl. }
+      assert (OK1 : out_ok s1 (o_emit (o_emit o Cease (lv_id v) (tyme s)) Exit (lv_id v) (tyme s))).
+      { unfold s1. apply ok_gen.
+        apply (ok_emit_vis (emit (set_gen s (lv_id v) (GRun (v_pc v))) Cease (lv_id v)) _ Exit (lv_id v) Vv).
+        apply (ok_emit_vis (set_gen s (lv_id v) (GRun (v_pc v))) _ Cease (lv_id v) Vv). now apply ok_gen. }
+      assert (GU1 : Forall (it_ok s1) its).
+      { eapply its_ok_frame; [exact F1| |exact GU]. intros x Hx. split; [|intros []].
+        intros [Heq|[]]. subst x. apply (Disj (lv_id v)); [now left|exact Hx]. }
+      destruct (IH f s1 _ O GU1 WU NDU OK1) as [OK' F'].
+      split; [exact OK'|].
+      eapply frame_trans; [eapply frame_weaken; [| |exact F1]; incl_tac
+                          |eapply frame_weaken; [| |exact F']; incl_tac].
+    + destruct Gi as (Gn & Dqn & Kn). destruct Wi as (NV & [kids0 Dn] & DK & VK).
+      assert (NDk : NoDup (map lv_id kids)).
+      { apply NoDup_app_l in ND. now apply NoDup_cons_iff in ND as [_ ND]. }
+      rewrite close_list_deed in *.
+      pose proof (oof_close_list _ _ _ O) as O1.
+      destruct (group_close f s n npc kids0 kids o O1 Gn Dn Dqn Kn DK NDk VK NV OK) as [OK1 F1].
+      set (s1 := gen_close tk f s n) in *.
+      assert (GU1 : Forall (it_ok s1) its).
+      { eapply its_ok_frame; [exact F1| |exact GU]. intros x Hx. split.
+        - intro Hin. exact (Disj x Hin Hx).
+        - intros [Heq|[]]. subst x. apply (Disj n); [now left|exact Hx]. }
+      assert (WU1 : Forall (it_wf (defs s1)) its) by (destruct F1 as (_ & -> & _); exact WU).
+      assert (T1 : tyme s1 = tyme s) by (destruct F1 as (-> & _); reflexivity).
+      destruct (IH f s1 _ O GU1 WU1 NDU OK1) as [OK' F']. rewrite T1 in OK'.
+      split; [exact OK'|].
+      eapply frame_trans; [eapply frame_weaken; [| |exact F1]; incl_tac
+                          |eapply frame_weaken; [| |exact F']; incl_tac].
+Qed.
+
+Lemma its_ids_rev (its : list (aitem T)) : NoDup (0%N :: its_ids its) -> NoDup (0%N :: its_ids (rev its)).
+Proof.
+  apply Permutation_NoDup. apply perm_skip. unfold its_ids.
+  apply Permutation_flat_map. apply Permutation_rev.
+Qed.
+
+Lemma root_close f s (its : list (aitem T)) o :
+  oof (close_own tk f s 0%N) = false ->
+  deeds (get_sched s 0%N) = map it_deed its ->
+  Forall (it_ok s) its -> Forall (it_wf (defs s)) its -> NoDup (0%N :: its_ids its) -> out_ok s o ->
+  out_ok (close_own tk f s 0%N) (its_close (tyme s) (rev its) o) /\
+  tyme (close_own tk f s 0%N) = tyme s.
+Proof.
+  intros O Dq G W ND OK.
+  destruct f as [|f]; [rewrite close_own_O in O; discriminate|].
+  rewrite close_own_S in *. cbv zeta in *. rewrite Dq in *.
+  unfold unrotate in *. rewrite split_mark_its in *. rewrite <- map_rev in *.
+  set (s1 := set_deeds s 0%N []) in *.
+  assert (F1 : frame [] [0%N] s s1) by (apply frame_deeds; [now left|apply frame_refl]).
+  assert (G1 : Forall (it_ok s1) (rev its)).
+  { apply Forall_rev. eapply its_ok_frame; [exact F1| |exact G]. intros x Hx. split; [intros []|].
+    intros [Heq|[]]. subst x. apply NoDup_cons_iff in ND as [N0 _]. contradiction. }
+  destruct (its_close_list (rev its) f s1 o O G1 (Forall_rev W) (its_ids_rev _ ND) (ok_deeds _ _ _ _ OK)) as [OK' F'].
+  split; [exact OK'|]. destruct F' as (-> & _). reflexivity.
 Qed.
 
 End Run.
